@@ -299,3 +299,152 @@ func TestHeapHavoc(t *testing.T) {
 		}
 	}
 }
+
+const srcInline = `package fix
+type T struct{ ok bool; p *int; sess *int }
+func sink()
+func mark()
+func (t *T) owns() bool { return t.ok && t.p != nil }
+func (t *T) cleanup() {
+	if t.sess == nil {
+		return
+	}
+	mark()
+}
+func pick(a *int) *int {
+	if a == nil {
+		return nil
+	}
+	return a
+}
+func tail(t *T) *int { return pick(t.p) }
+func errOf(b bool) (err error) {
+	if b {
+		err = errSentinel
+	}
+	return
+}
+var errSentinel error
+func f(t *T, b bool) {
+	if !t.owns() {
+		return
+	}
+	sink()          // t.ok && t.p != nil known here
+	t.cleanup()
+	x := pick(t.p)
+	_ = x
+	if err := errOf(b); err != nil {
+		sink()
+	}
+}`
+
+func inlineAll(f *Func) func(*ast.CallExpr, *types.Func) *Func {
+	decls := map[types.Object]*ast.FuncDecl{}
+	for _, file := range f.Pkg.Syntax {
+		for _, d := range file.Decls {
+			if fd, ok := d.(*ast.FuncDecl); ok && fd.Body != nil {
+				decls[f.Info.Defs[fd.Name]] = fd
+			}
+		}
+	}
+	return func(call *ast.CallExpr, callee *types.Func) *Func {
+		if fd := decls[callee]; fd != nil {
+			return NewFunc(f.Pkg, fd)
+		}
+		return nil
+	}
+}
+
+func TestInlineConditionAndStatement(t *testing.T) {
+	f := fixture(t, srcInline, "f")
+	marks := 0
+	res, err := Analyze(f, Config{NoHavoc: true, Inline: inlineAll(f),
+		OnCall: func(st *State, call *ast.CallExpr, callee types.Object, d bool) {
+			if callee != nil && callee.Name() == "mark" {
+				marks++
+				st.Set("ev:marked", True)
+			}
+		}})
+	if err != nil {
+		t.Fatal(err)
+	}
+	sinks := callsNamed(f, "sink")
+	// first sink: reached only with t.ok true and t.p non-nil, in the caller's vocabulary
+	sts := res.At[sinks[0]]
+	if len(sts) == 0 {
+		t.Fatal("first sink unreachable")
+	}
+	for _, st := range sts {
+		if !hasFact(st, ".ok", True) || !hasFact(st, "nil:t", False) {
+			t.Errorf("facts from the inlined condition missing: %v", st.Facts())
+		}
+	}
+	if marks == 0 {
+		t.Errorf("call inside the inlined helper did not fire OnCall")
+	}
+	// exits: the early return exits do not carry the event, later ones may
+	saw := false
+	for _, ex := range res.Exits {
+		if ex.State.Is("ev:marked", True) {
+			saw = true
+		}
+	}
+	if !saw {
+		t.Errorf("no exit carries the event set inside the inlined helper")
+	}
+	// second sink: err != nil only when b is true (named result, bare return)
+	for _, st := range res.At[sinks[1]] {
+		if !hasFact(st, "v:b", True) {
+			t.Errorf("second sink reached without b: %v", st.Facts())
+		}
+	}
+	if len(res.At[sinks[1]]) == 0 {
+		t.Errorf("second sink unreachable")
+	}
+	if len(res.Inlined) < 3 {
+		t.Errorf("inlined = %v", res.Inlined)
+	}
+}
+
+func TestInlineTailCall(t *testing.T) {
+	f := fixture(t, srcInline, "tail")
+	res, err := Analyze(f, Config{NoHavoc: true, Inline: inlineAll(f)})
+	if err != nil {
+		t.Fatal(err)
+	}
+	var nilExit, okExit bool
+	for _, ex := range res.Exits {
+		if ex.Inner == nil || ex.Return == nil {
+			t.Fatalf("tail exit without Inner/Return: %+v", ex)
+		}
+		call := ex.Return.Results[0]
+		switch ex.State.Get(f.NilKey(call)) {
+		case True:
+			nilExit = true
+		default:
+			okExit = true
+		}
+	}
+	if !nilExit || !okExit {
+		t.Errorf("nilExit=%v okExit=%v", nilExit, okExit)
+	}
+}
+
+func TestReplaceToken(t *testing.T) {
+	got, ok := replaceToken("eq:cur·305:5==c·295:7", "c·295:7", "c·310:7")
+	if !ok || got != "eq:cur·305:5==c·310:7" {
+		t.Errorf("got %q %v", got, ok)
+	}
+	if _, ok := replaceToken("nil:c·295:71.x", "c·295:7", "z"); ok {
+		t.Errorf("matched inside a longer position")
+	}
+	if _, ok := replaceToken("nil:ac·295:7.x", "c·295:7", "z"); ok {
+		t.Errorf("matched inside a longer name")
+	}
+	if got, _ := replaceToken("v:t·1:1.ok", "t·1:1", "u·2:2"); got != "v:u·2:2.ok" {
+		t.Errorf("got %q", got)
+	}
+	if canonEq("eq:z==a") != "eq:a==z" || canonEq("eq:z==3") != "eq:z==3" {
+		t.Errorf("canonEq")
+	}
+}
